@@ -216,7 +216,8 @@ def run(idx: Index, rep: Report, tier: str) -> None:
         rep.check(pname in preds, rule6, f"_evaluate_effect: branch for {pname}", ee.loc(), construct=pname, detail="" if pname in preds else f"no branch for effect.{pname}()", function=ee.qualname)
     # the chain ends in raise
     chain_tests = [n for n in ecfg.nodes if n.kind == "test" and "is_decrease" in norm(n.ast)]
-    ok = bool(chain_tests) and all(raising_branch(ecfg, t, False) for t in chain_tests)
+    # `if not e.is_decrease(): raise` is the same dispatch: the raising outcome is the one where the predicate is false
+    ok = bool(chain_tests) and all(raising_branch(ecfg, t, isinstance(t.ast, ast.UnaryOp) and isinstance(t.ast.op, ast.Not)) for t in chain_tests)
     rep.check(ok, rule6, "_evaluate_effect: unknown effect kind raises", ee.loc(chain_tests[0].ast) if chain_tests else ee.loc(), construct="else: raise NotImplementedError", detail="" if ok else "an effect that is neither assignment, increase nor decrease is silently accepted", function=ee.qualname)
     # conflicting numeric/object assignments raise; Boolean add-after-delete distinguished by is_bool_type
     raises = [r for r in walk_no_nested(ee.node) if isinstance(r, ast.Raise) and r.exc is not None and "UPConflictingEffectsException" in norm(r.exc)]
